@@ -518,6 +518,61 @@ def mech_range_index(site):
     return "index produced by `0..v.len()` over the same container (in bounds by construction)"
 
 
+def mech_nonempty_vec(site):
+    """`v.remove(0)` / `v[0]` on a local vector that was built with at least one element (`vec![x, ..]`, or a `push` that dominates the
+    site) and that nothing shrinks anywhere in the function except this site"""
+    if site.call is None or not site.call.args:
+        return None
+    sn = short(site.call.name)
+    if site.kind == "api:vec-pos" and re.search(r"^alloc::vec::Vec::(remove|swap_remove)$", sn):
+        idx = site.call.args[1] if len(site.call.args) > 1 else None
+    elif site.kind == "api:index" and "Vec<T, A> as core::ops::index::Index" in sn:
+        idx = site.call.args[1] if len(site.call.args) > 1 else None
+    else:
+        return None
+    if idx is None or idx.get("k") != "const" or idx.get("int") != 0:
+        return None
+    fn = site.fn
+
+    def root(op):
+        pl, n = op.get("pl"), 0
+        while pl is not None and n < 8:
+            n += 1
+            if [e for e in pl["p"] if isinstance(e, dict)]:
+                return None
+            defs = [st for _, st in F._assign_defs(fn).get(pl["l"], []) if not st["pl"]["p"]]
+            if len(defs) == 1 and defs[0]["rv"]["k"] in ("ref", "copy_for_deref", "rawptr"):
+                pl = defs[0]["rv"]["pl"]
+            elif len(defs) == 1 and defs[0]["rv"]["k"] == "use" and defs[0]["rv"]["op"].get("pl") is not None and fn.local_ty(pl["l"]).startswith("&"):
+                pl = defs[0]["rv"]["op"]["pl"]
+            else:
+                break
+        return pl["l"] if pl is not None else None
+    L = root(site.call.args[0])
+    if L is None or 1 <= L <= fn.arg_count or not fn.local_ty(L).startswith("alloc::vec::Vec<"):
+        return None
+    grown = False
+    for c in fn.calls:
+        if c is site.call:
+            continue
+        n = short(c.name)
+        if c.dest is not None and c.dest["l"] == L and not c.dest["p"]:
+            if re.search(r"slice::<impl \[T\]>::into_vec$|^alloc::boxed::box_assume_init_into_vec_unsafe$", n) and c.args and re.search(r"\[[^;\]]+; [1-9]\d*\]", c.args[0].get("ty") or "") and \
+                    fn.dominates(c.bb, site.bb):
+                grown = True
+            continue
+        if not c.args or c.args[0].get("k") not in ("copy", "move") or root(c.args[0]) != L:
+            continue
+        if re.search(r"^alloc::vec::Vec::push$", n) and fn.dominates(c.bb, site.bb) and PR.loop_of(fn, c.bb) is None:
+            grown = True
+        elif re.search(r"^alloc::vec::Vec::(pop|remove|swap_remove|clear|truncate|drain|retain|retain_mut|split_off|dedup\w*|set_len)$|^core::mem::(take|replace|swap)$", n):
+            return None
+    # moved out / reassigned elsewhere
+    if len([1 for _, st in F._assign_defs(fn).get(L, []) if not st["pl"]["p"]]) > 1:
+        return None
+    return "first element of a vector that was built with at least one element and is never shrunk before" if grown else None
+
+
 def mech_lengths(site):
     if site.kind == "cast" and site.stmt is not None:
         rv = site.stmt["rv"]
@@ -967,7 +1022,7 @@ def run_inventory(R, rid, root_name, desc, restrict=None):
     for key in sorted(by_key):
         ss = by_key[key]
         for idx, s in enumerate(sorted(ss, key=lambda s: (s.file, s.line))):
-            how = mech_const_divisor(s) or mech_counter(s) or mech_const_ctor(s) or mech_lengths(s) or mech_const_clamp(s) or mech_position_index(s) or mech_range_index(s) or mech_guarded_sub(s) or mech_full_range(s) or mech_excluded_variant(s) or mech_widened(s) or mech_total_consumers(s) or mech_bounded_capacity(s) or mech_balanced_counter(s)
+            how = mech_const_divisor(s) or mech_counter(s) or mech_const_ctor(s) or mech_lengths(s) or mech_const_clamp(s) or mech_position_index(s) or mech_range_index(s) or mech_nonempty_vec(s) or mech_guarded_sub(s) or mech_full_range(s) or mech_excluded_variant(s) or mech_widened(s) or mech_total_consumers(s) or mech_bounded_capacity(s) or mech_balanced_counter(s)
             if how:
                 R.ok(rid, key, "mechanical: " + how, s.loc(), nontrivial=False)
                 continue
@@ -1186,6 +1241,22 @@ def recursion_rule(R, rid, root_name, guard_roots=None):
         named = [n for n in names if "{closure" not in n] or names
         key = named[0]
         ent = [e for e in tab if e["contains"] in names]
+        if not ent:
+            # the recursion of a tabled function moved into a function that only it calls (`json_value` delegating to an
+            # `impl From<&Value> for serde_json::Value`): the same recursion over the same structure
+            outside = set()
+            for h in P.fns.values():
+                if h.key in comp:
+                    continue
+                if any(k2 in comp for c in h.calls for k2 in P.callee_keys(h, c)):
+                    o_ = h
+                    while o_.kind == "Closure" and o_.parent_key in P.fns:
+                        o_ = P.fns[o_.parent_key]
+                    if o_.key not in comp:
+                        outside.add(o_.spath)
+            if len(outside) == 1:
+                ent = [e for e in tab if e["contains"] in outside and P.fn(e["contains"]) is not None and
+                       not any(P.fn(e["contains"]).key in c2 for c2 in comps)]
         loc = P.fns[comp[0]].loc()
         if not (set(comp) & own_reach) and not (ent and ent[0]["mode"] == "guarded"):
             continue
